@@ -60,6 +60,22 @@ BUILT = {
             'image must be the union.',
             'Reference model mc/refasm.py; muted lines not generated.',
             'DESIGN.md 3/C04'),
+    'C05': ('model_checking',
+            'explicit-state exploration of zone-switching programs in a 5-bit address space against a reference zone model',
+            'Every program over a 14-symbol zone alphabet (zone selection, relative and absolute origins, data, fills ending at / '
+            'one past a zone end, alignment, an include that switches zone) up to depth 3-4 (thorough 4-5) under six zone layouts, '
+            'plus the full grid of well- and ill-formed zone declarations in source and in the ISA definition; the image must equal '
+            'the reference layout and rejection must occur iff a byte would leave its zone or GLOBAL.',
+            'Reference model mc/refasm.py. Origins/alignments that leave a zone without placing a byte there are not judged.',
+            'DESIGN.md 3/C05'),
+    'C06': ('model_checking',
+            'explicit-state exploration of definition/reference histories across files against a reference scope resolver',
+            'Every history over 27 symbols (global/file/local definitions with colliding names, references, constants, scope-resetting '
+            'directives, six catalogue includes, six ill-named labels) up to depth 3 (thorough 4) and one level deeper over a core '
+            'alphabet, with and without closing forward definitions; the emitted byte of every reference must be the value of the '
+            'unique visible definition, otherwise the program must be rejected.',
+            'Reference model mc/refasm.py.',
+            'DESIGN.md 3/C06'),
 }
 
 NOT_BUILT_REASON = 'check not built yet (work in progress in this session); no claim made'
